@@ -21,18 +21,45 @@
    [innermost] = its head; [inward_spec] = first node of [postorder f] at the position
    (bounds inclusive for pairs, strict for single tags) followed by [first_child_chain].
 
-   Level B, NOT PROVED (covered by correspondence + ground-truth oracle on generated documents):
-     forall d over the document grammar (names over the XML name alphabet; attributes quoted /
-     unquoted over a safe alphabet / `{}`-balanced; text free of `<`; comments free of `-->`;
-     CDATA free of `]]>`; script/style bodies free of their close tag),
-       fst (scan special (render d)) = events_forest (forest d)
-   i.e. comments, CDATA, processing instructions and script/style bodies never contribute
-   tags and every tag is found with its exact range.  What IS proved about the scanner for all
-   strings is in props/C16Html.v (every event is a well-formed tag range carrying its name;
-   events ordered and disjoint; no internal error). *)
+   Level B (full, unbounded; proofs/HtmlRender*.v): from TEXT to events.  SPEC (proofs/HtmlRender.v,
+   proofs/HtmlRenderScan.v, sections SPEC): a document is a list of [item]s
+     IText s | ILt s | IComment body | ICData body | IPI pieces | IPaired name attrs ws kids
+     | ISelf name attrs ws | IVoid name attrs ws | IRaw name attrs ws body
+   an attribute is white space, a name  NIdent n | NDirective d n (`*ngIf`, `#ref`) | NBracket o pieces
+   (`[prop]`, `(click)`, `[(ngModel)]`, `{...spread}`) and a value  VNone | VQuoted q body | VUnquoted body |
+   VExpr pieces ({...} with nested braces and quoted strings);  [render : list item -> str] writes the text,
+   [forest_of d] is the record of where every element of [render d] lies (exact open / close ranges computed from
+   the lengths of the rendered parts), [events d] its tag events in document order.  [item_ok special] says which
+   documents: names over the scanner's XML name alphabet (name_start_char / name_char); attribute white space not
+   empty; quoted values free of their quote and of backslash (they MAY contain `>` `<` `/` `=`); unquoted values
+   not empty, free of quote / white space / `>` / `/`, not starting with a bracket; expression characters free of
+   quote / brace / backslash outside its quoted strings; text free of `<`; ILt = a `<` that starts nothing
+   (`<!DOCTYPE html>`, `a < b`: followed by text that begins with no name start, `/`, `?`, `!-`, `![`); comment / CDATA / raw bodies in which
+   the terminator (`-->`, `]]>`, `</name>`) occurs first at the end (ends_firstb; C09_ends_first_spec; true of
+   every body that does not contain its terminator: C09_terminator_free_bodies); PI pieces
+   plain non-quote characters or quoted strings, no `?>` before the end; an element is IRaw exactly when the scanner
+   option `special` makes it raw ([is_raw]: `style`, `script` whose first `type` attribute, unquoted, is a
+   JavaScript type or absent) -- then its body is arbitrary text free of its own close tag.
+     C09_scan_render          scan special (render d) = (events d, None)   for EVERY such document: comments,
+                              CDATA, PIs and raw bodies contribute no tags, every tag is found with its exact range
+     C09_match_text / C09_outward_text / C09_inward_text
+                              html_match / balanced_outward / balanced_inward on the TEXT return the innermost
+                              element / enclosing chain / element at the position + first-child chain of the record
+     C09_enclosing_chain_text the enclosing elements of a position of the text are strictly nested (head = innermost)
+     C09_record_well_nested   the record is well nested inside [0, length (render d)]
+     C09_attributes_render    attributes (render_attrs l ++ ws) = the attributes as written, with exact ranges
+     C09_attribute_ranges_text   get_attributes over a tag lying anywhere in a source = those tokens, shifted
+     C09_attribute_tokens_slice  every such token slices the source exactly to the name and to the value as written
+     C09_attributes_doc / C09_match_text_attrs   the attribute tokens match() returns on the text are the attributes
+                              of the matched element's tag as written in the document, at their exact ranges
+   Outside the grammar (covered by correspondence + ground-truth oracle only):
+   backslash escapes inside quoted values, white space around `=` or inside close tags, unbalanced quotes in PIs.
+   What is proved about the scanner for ALL strings is in props/C16Html.v. *)
 From Coq Require Import List NArith ZArith.
 From Emmet Require Import lib.Base gen.GenHtml model.HtmlScan model.HtmlMatch
-  proofs.HtmlScanProofs proofs.HtmlFoldProofs proofs.HtmlC16Proofs proofs.HtmlForestProofs.
+  proofs.HtmlScanProofs proofs.HtmlFoldProofs proofs.HtmlC16Proofs proofs.HtmlForestProofs
+  proofs.HtmlRenderLib proofs.HtmlRender proofs.HtmlRenderScan proofs.HtmlRenderCompose proofs.HtmlRenderFree.
+From Emmet Require lib.StrLit.
 Import ListNotations.
 
 Theorem C09_match_innermost :
@@ -107,4 +134,147 @@ Example C09_nonvacuous :
   fst (scan (o_special default_opts) s) = events_forest f /\
   forallb (names_ok default_opts) f = true /\ forest_wf 0 28 f = true /\
   length (enclosing f 9) = 3 /\ length (inward_spec f 5) = 2.
+Proof. vm_compute. repeat split. Qed.
+
+(* ================================================================== Level B: from text to events *)
+Theorem C09_scan_render :
+  forall (special : list (str * option (list str))) (d : list item),
+    forallb (item_ok special) d = true -> scan special (render d) = (events d, None).
+Proof. exact scan_render. Qed.
+Print Assumptions C09_scan_render.
+
+Theorem C09_match_text :
+  forall (o : opts) (d : list item) (pos : Z),
+    doc_ok o d = true ->
+    html_match o (render d) pos =
+    Ok (match innermost (forest_of d) pos with
+        | Some b => Some (mkMatched (b_name b)
+                            (get_attributes (render d) (fst (b_open b)) (snd (b_open b)) (b_name b))
+                            (b_open b) (b_close b))
+        | None => None
+        end).
+Proof. exact match_text. Qed.
+Print Assumptions C09_match_text.
+
+Theorem C09_outward_text :
+  forall (o : opts) (d : list item) (pos : Z),
+    doc_ok o d = true -> balanced_outward o (render d) pos = Ok (enclosing (forest_of d) pos).
+Proof. exact outward_text. Qed.
+Print Assumptions C09_outward_text.
+
+Theorem C09_inward_text :
+  forall (o : opts) (d : list item) (pos : Z),
+    doc_ok o d = true -> balanced_inward o (render d) pos = Ok (inward_spec (forest_of d) pos).
+Proof. exact inward_text. Qed.
+Print Assumptions C09_inward_text.
+
+Theorem C09_enclosing_chain_text :
+  forall (o : opts) (d : list item) (pos : Z),
+    doc_ok o d = true ->
+    Forall (contains_pos pos) (enclosing (forest_of d) pos) /\ strictly_nested (enclosing (forest_of d) pos).
+Proof. exact enclosing_chain_text. Qed.
+Print Assumptions C09_enclosing_chain_text.
+
+Theorem C09_record_well_nested :
+  forall d : list item, forest_wf 0 (N.of_nat (length (render d))) (forest_of d) = true.
+Proof. exact forest_of_wf. Qed.
+Print Assumptions C09_record_well_nested.
+
+Theorem C09_attributes_render :
+  forall (l : list dattr) (w : str),
+    forallb dattr_ok l = true -> forallb is_space w = true ->
+    attributes (render_attrs l ++ w) None = attr_tokens 0 l.
+Proof. exact attributes_render. Qed.
+Print Assumptions C09_attributes_render.
+
+Theorem C09_attribute_ranges_text :
+  forall (pre post n : str) (l : list dattr) (w : str) (selfclose : bool),
+    tag_ok n l w = true ->
+    get_attributes (pre ++ open_tag n l w selfclose ++ post)
+                   (N.of_nat (length pre)) (N.of_nat (length pre) + N.of_nat (length (open_tag n l w selfclose)))%N n =
+    attr_tokens (N.of_nat (length pre) + N.of_nat (S (length n)))%N l.
+Proof. exact get_attributes_text. Qed.
+Print Assumptions C09_attribute_ranges_text.
+
+Theorem C09_attribute_tokens_slice :
+  forall (l : list dattr) (pre post : str),
+    Forall (token_slices (pre ++ render_attrs l ++ post)) (attr_tokens (N.of_nat (length pre)) l).
+Proof. exact attr_tokens_slice. Qed.
+Print Assumptions C09_attribute_tokens_slice.
+
+(* [tags_of d]: every open tag of the document with its offset and its attribute list as written.
+   get_attributes over the text of the document at the range of any of its tags yields exactly those attributes *)
+Theorem C09_attributes_doc :
+  forall (special : list (str * option (list str))) (d : list item) (t : tagrec),
+    forallb (item_ok special) d = true -> In t (tags_of d) ->
+    get_attributes (render d) (tr_start t) (tr_end t) (tr_name t) =
+    attr_tokens (tr_start t + N.of_nat (S (length (tr_name t))))%N (tr_attrs t).
+Proof. exact get_attributes_doc. Qed.
+Print Assumptions C09_attributes_doc.
+
+(* end to end, with attributes: whatever match() returns on the text is the innermost element of the record, its
+   open range is the range of one of the document's tags, and its attribute tokens are that tag's attributes as
+   written -- names and values at their exact ranges (C09_attribute_tokens_slice: they slice the text exactly) *)
+Theorem C09_match_text_attrs :
+  forall (o : opts) (d : list item) (pos : Z) (m : matched),
+    doc_ok o d = true -> html_match o (render d) pos = Ok (Some m) ->
+    exists b t, innermost (forest_of d) pos = Some b /\ In t (tags_of d) /\
+      m_name m = b_name b /\ m_open m = b_open b /\ m_close m = b_close b /\
+      b_name b = tr_name t /\ b_open b = (tr_start t, tr_end t) /\
+      m_attrs m = attr_tokens (tr_start t + N.of_nat (S (length (tr_name t))))%N (tr_attrs t).
+Proof. exact match_text_attrs. Qed.
+Print Assumptions C09_match_text_attrs.
+
+(* the body condition of comments / CDATA / raw elements, as a statement about occurrences *)
+Theorem C09_ends_first_spec :
+  forall pat body : str,
+    ends_firstb pat body = true <->
+    (forall i, (i < length body)%nat -> starts_with pat (skipn i (body ++ pat)) = false).
+Proof. exact ends_firstb_spec. Qed.
+Print Assumptions C09_ends_first_spec.
+
+(* ... and it holds whenever the body does not contain its terminator at all *)
+Theorem C09_terminator_free_bodies :
+  (forall b, contains comment_close b = false -> ends_firstb comment_close b = true) /\
+  (forall b, contains cdata_close b = false -> ends_firstb cdata_close b = true) /\
+  (forall n b, name_ok n = true -> contains (close_tag n) b = false -> ends_firstb (close_tag n) b = true).
+Proof. exact (conj comment_body_free (conj cdata_body_free raw_body_free)). Qed.
+Print Assumptions C09_terminator_free_bodies.
+
+(* non-vacuity of Level B: a document with every construct of the grammar is in the domain, renders to the
+   text shown, and the functions on the text give the record's answers *)
+From Coq Require Import String.
+Local Notation s x := (StrLit.S x%string) (only parsing).
+Definition c09_example_doc : list item :=
+  let at_ n v := mkDAttr (s " ") (NIdent n) v in
+  [ IPI (map PChar (s "xml v=") ++ [PQuoted 34 (s "?>")]);
+    IComment (s " <b> ");
+    IPaired (s "ul") [at_ (s "class") (VQuoted 34 (s "a>b")); at_ (s "data-x") (VUnquoted (s "1"));
+                      at_ (s "on") (VExpr [EChar 102; EChar 40; EQuoted 34 (s "}"); ENested [EChar 62]; EChar 41]);
+                      at_ (s "hidden") VNone;
+                      mkDAttr (s " ") (NDirective 42 (s "ngIf")) (VQuoted 34 (s "a>b"));
+                      mkDAttr (s " ") (NDirective 35 (s "ref")) VNone;
+                      mkDAttr (s " ") (NBracket 91 [ENested [EChar 97]; EChar 46; EChar 62]) (VUnquoted (s "1"));
+                      mkDAttr (s " ") (NBracket 40 [EChar 99; ENested []]) (VQuoted 34 (s "f()"));
+                      mkDAttr (s " ") (NBracket 123 (map EChar (s "...p"))) VNone] (s " ")
+      [ IText (s "text");
+        IPaired (s "li") [at_ (s "id") (VQuoted 39 (s "x"))] []
+          [ IVoid (s "br") [] []; ISelf (s "img") [at_ (s "src") (VQuoted 34 (s "/"))] (s " ") ];
+        ICData (s "<i>");
+        IRaw (s "script") [at_ (s "type") (VQuoted 34 (s "text/javascript"))] [] (s "if (a<b) '</div>'");
+        IPaired (s "script") [at_ (s "type") (VQuoted 34 (s "text/x-template"))] [] [IPaired (s "p") [] [] []] ];
+    ILt (s "!DOCTYPE html>"); IText (s " a "); ILt (s " b") ]%N.
+
+Example C09_text_nonvacuous :
+  doc_ok default_opts c09_example_doc = true /\
+  render c09_example_doc =
+    s ("<?xml v=""?>""?><!-- <b> --><ul class=""a>b"" data-x=1 on={f(""}""{>})} hidden *ngIf=""a>b"" #ref [[a].>]=1 (c())=""f()"" {...p} >text<li id='x'><br>" ++
+              "<img src=""/"" /></li><![CDATA[<i>]]><script type=""text/javascript"">if (a<b) '</div>'</script>" ++
+              "<script type=""text/x-template""><p></p></script></ul><!DOCTYPE html> a < b") /\
+  map (fun e => (ev_name e, ev_start e)) (events c09_example_doc) =
+    [(s "ul", 26); (s "li", 124); (s "br", 135); (s "img", 139); (s "li", 154);
+     (s "script", 174); (s "script", 222); (s "script", 231); (s "p", 262);
+     (s "p", 265); (s "script", 269); (s "ul", 278)]%N /\
+  option_map b_name (innermost (forest_of c09_example_doc) 136) = Some (s "br") /\
+  map b_name (enclosing (forest_of c09_example_doc) 267) = [s "p"; s "script"; s "ul"].
 Proof. vm_compute. repeat split. Qed.
